@@ -158,6 +158,26 @@ SymC13(C, E) ==
         \E b \in KidsOf(C, C.parent[j]) : StartPos(E, b) > 0 /\ StartPos(E, b) < i /\ (OverPos(E, b) = 0 \/ OverPos(E, b) > i)
   \/ \E i \in Idx(E) : E[i].k = "sshut-ret" /\ E[i].n = 1 /\ TopPos(E) > 0 /\ i > TopPos(E) /\ E[i].v # "null"
 
+(* C14: across the predicate samples of one run, nothing ever reverts         *)
+Snaps(E)  == {i \in Idx(E) : E[i].k = "snap"}
+Bit(x, k) == (x \div k) % 2 = 1
+SymC14(C, E) ==
+  \* a body that returned or raised is reported done at every later sample, with its
+  \* own result / exception
+  \/ \E n \in NodesOf(C) \ {1} : IsJobN(C, n) /\ \E f \in Fins(E, n) : \E j \in Snaps(E) :
+        j > f /\ (~Bit(E[j].sn[n - 1][1], 8)
+                  \/ (E[f].k = "end" /\ E[j].sn[n - 1][2] # "ret")
+                  \/ (E[f].k = "raise" /\ E[j].sn[n - 1][3] # n))
+  \* a body that was cancelled, or never entered, is never reported done
+  \/ \E n \in NodesOf(C) \ {1} : IsJobN(C, n) /\ Fins(E, n) = {} /\ \E j \in Snaps(E) : Bit(E[j].sn[n - 1][1], 8)
+  \/ \E i \in Snaps(E) : \E j \in Snaps(E) : i < j /\ \E n \in 1..Len(E[i].sn) :
+     LET a == E[i].sn[n]  b == E[j].sn[n] IN
+       \/ Bit(a[1], 8) /\ ~Bit(b[1], 8)              \* is_done reverted
+       \/ Bit(a[1], 4) /\ ~Bit(b[1], 4)              \* is_running reverted
+       \/ Bit(a[1], 2) /\ ~Bit(b[1], 2)              \* is_scheduled reverted
+       \/ ~Bit(a[1], 1) /\ Bit(b[1], 1)              \* idle again
+       \/ Bit(a[1], 8) /\ (a[2] # b[2] \/ a[3] # b[3])   \* result / exception of a done job changed
+
 Symptoms(C, E) ==
      (IF SymC01(C, E) THEN {"C01"} ELSE {}) \cup (IF SymC02(C, E) THEN {"C02"} ELSE {})
   \cup (IF SymC03(C, E) THEN {"C03"} ELSE {}) \cup (IF SymC04(C, E) THEN {"C04"} ELSE {})
@@ -165,4 +185,5 @@ Symptoms(C, E) ==
   \cup (IF SymC08(C, E) THEN {"C08"} ELSE {}) \cup (IF SymC09(C, E) THEN {"C09"} ELSE {})
   \cup (IF SymC10(C, E) THEN {"C10"} ELSE {}) \cup (IF SymC11(C, E) THEN {"C11"} ELSE {})
   \cup (IF SymC12(C, E) THEN {"C12"} ELSE {}) \cup (IF SymC13(C, E) THEN {"C13"} ELSE {})
+  \cup (IF SymC14(C, E) THEN {"C14"} ELSE {})
 =============================================================================
